@@ -80,7 +80,7 @@ func newEventFromUntrustedJSONV3(eventJSON []byte, roomVersion IRoomVersion) (PD
 		}
 	}
 
-	if err = json.Unmarshal(eventJSON, &res); err != nil {
+	if err = json.Unmarshal(eventJSON, res); err != nil {
 		return nil, err
 	}
 
@@ -161,7 +161,7 @@ func newEventFromTrustedJSONV3(eventJSON []byte, redacted bool, roomVersion IRoo
 
 func newEventFromTrustedJSONWithEventIDV3(eventID string, eventJSON []byte, redacted bool, roomVersion IRoomVersion) (PDU, error) {
 	res := &eventV3{}
-	if err := json.Unmarshal(eventJSON, &res); err != nil {
+	if err := json.Unmarshal(eventJSON, res); err != nil {
 		return nil, err
 	}
 
